@@ -11,8 +11,12 @@ use crate::executable::ConflictingFieldName;
 use crate::executable::ConflictingFieldType;
 use crate::executable::SelectionSet;
 use crate::schema;
+use crate::validation::diagnostics::DiagnosticData;
+use crate::validation::DepthCounter;
+use crate::validation::DepthGuard;
 use crate::validation::DiagnosticList;
 use crate::validation::OperationValidationContext;
+use crate::validation::RecursionLimitError;
 use crate::ExecutableDocument;
 use crate::Name;
 use crate::Node;
@@ -576,6 +580,11 @@ impl<'alloc, 's, 'doc> FieldsInSetCanMerge<'alloc, 's, 'doc> {
     }
 }
 
+/// Validates a selection set and everything nested in it, following fragment spreads.
+///
+/// The walk is recursive: a chain of fragments multiplies the nesting that the parser allows
+/// in a single definition, so the depth is limited the way it is in
+/// `walk_selections_with_deduped_fragments`.
 pub(crate) fn validate_selection_set(
     diagnostics: &mut DiagnosticList,
     document: &ExecutableDocument,
@@ -583,11 +592,40 @@ pub(crate) fn validate_selection_set(
     selection_set: &SelectionSet,
     context: &mut OperationValidationContext<'_>,
 ) {
+    // Same limit and same counting (one level per field, inline fragment, or fragment spread
+    // that is followed) as `walk_selections_with_deduped_fragments`.
+    let mut depth = DepthCounter::new().with_limit(500);
+    let walked = validate_nested_selection_set(
+        diagnostics,
+        document,
+        against_type,
+        selection_set,
+        context,
+        depth.guard(),
+    );
+    if walked.is_err() {
+        diagnostics.push(None, DiagnosticData::RecursionError {});
+    }
+}
+
+pub(super) fn validate_nested_selection_set(
+    diagnostics: &mut DiagnosticList,
+    document: &ExecutableDocument,
+    against_type: Option<(&crate::Schema, &NamedType)>,
+    selection_set: &SelectionSet,
+    context: &mut OperationValidationContext<'_>,
+    mut guard: DepthGuard<'_>,
+) -> Result<(), RecursionLimitError> {
     for selection in &selection_set.selections {
         match selection {
-            executable::Selection::Field(field) => {
-                super::field::validate_field(diagnostics, document, against_type, field, context)
-            }
+            executable::Selection::Field(field) => super::field::validate_field(
+                diagnostics,
+                document,
+                against_type,
+                field,
+                context,
+                &mut guard,
+            )?,
             executable::Selection::FragmentSpread(fragment) => {
                 super::fragment::validate_fragment_spread(
                     diagnostics,
@@ -595,7 +633,8 @@ pub(crate) fn validate_selection_set(
                     against_type,
                     fragment,
                     context,
-                )
+                    &mut guard,
+                )?
             }
             executable::Selection::InlineFragment(inline) => {
                 super::fragment::validate_inline_fragment(
@@ -604,8 +643,10 @@ pub(crate) fn validate_selection_set(
                     against_type,
                     inline,
                     context,
-                )
+                    &mut guard,
+                )?
             }
         }
     }
+    Ok(())
 }
